@@ -27,6 +27,10 @@ CORPUS = [
     "const p = new Promise((res, rej) => { rej(new Error('late')); }); p.catch(() => 1); 2",
     "function* g() { try { yield 1; yield 2; } finally { } } const it = g(); it.next(); it.return(9).value",
     "class A { static make() { return new A(); } f = () => this; } A.make().f() instanceof A",
+    "[1, 2, 3].map(function (x) { { let y = {v: x}; if (y.v > 0) { return y.v; } } return 0; }).join(',')",
+    "function* g() { throw new Error('early'); yield 1; } let r = ''; try { g().next(); } catch (e) { r = 'caught'; } r",
+    "function* g() { throw new Error('early'); yield 1; } let r = ''; try { for (const x of g()) { r += x; } } catch (e) { r = 'c2'; } r",
+    "function* g(a: number) { let held = {a}; if (a > 0) throw new RangeError('pre'); yield held; } let r = 0; try { [...g(1)]; } catch (e) { r = 1; } r",
 ]
 
 
